@@ -1,4 +1,5 @@
 """C19: libfs sparse maps never hide data; merge_extents never drops coverage."""
+from ..common import rmtree as _rmtree
 import json, os, shutil, subprocess
 from .. import build, tlc, fsmat, runner
 from ..common import scratch, rng, ToolError
@@ -126,7 +127,7 @@ def run(ctx):
                       "segments": [s for s in j["segments"] if s[0] < s[1]], "hasExtents": has})
         ctx.sample({"file": name, "len": j["len"], "n_extents": len(j["extents"] or []), "n_merged": len(j["merged"] or []),
                     "n_segments": len(j["segments"]), "nonzero_runs": len(frecs[-1]["nz"])}, limit=8)
-    shutil.rmtree(root, ignore_errors=True)
+    _rmtree(root)
     # ---- verdicts by TLC
     allrecs = recs + frecs
     verdicts = []
